@@ -185,6 +185,12 @@ class GaussianMerge(Compiler):
                     # Fix order of operations
                     unified_operations = self.organize_merge_ops([op] + merged_gaussian_ops)
                     gaussian_transform = GaussianUnitary().compile(unified_operations, registers)
+                    if len(gaussian_transform) >= len(unified_operations) and all(
+                        "Dgate" in get_op_name(cmd) for cmd in gaussian_transform
+                    ):
+                        # nothing gained (displacement gates on different qumodes come back
+                        # unchanged): merging them again and again would never end
+                        continue
                     if not gaussian_transform:
                         # the merged operations cancel each other: simply drop them
                         self.curr_seq = [
